@@ -110,6 +110,24 @@ def budget(tier):
 @composite
 def strategy_(d, tier):
     kind = d.weighted([(5, "stmt"), (3, "mut"), (4, "tool")])
+    if kind == "stmt" and d.bool(0.12):
+        # structures with bit elements on the families whose BIT statement creates element references that
+        # ENDSTRUCT has to resolve (H8, H16, KENBAK, PDK, S12Z, ST6, ST7, Z8, Z8000, eZ8)
+        cpu = d.choice(["hd6413309", "hd6475348", "hd641016", "kenbak", "pms150", "s912zvh128f2clq", "st6218", "st7",
+                        "z86c03", "z8002", "ez8"])
+        lines = ["st\tstruct"]
+        els = []
+        for e in range(d.int(1, 4)):
+            els.append("e%d" % e)
+            lines.append("e%d\t%s" % (e, d.choice(["ds.b 1", "ds 1", "db ?", "res 1", "rmb 1", "dfs 1", "ds.w 1", "ds.b 2"])))
+        for b in range(d.int(1, 4)):
+            ref = d.choice(els + ["nosuch", "b0"])
+            n = d.choice(["0", "3", "7", "#7", "#0"])
+            lines.append("b%d\tbit\t%s" % (b, d.choice(["%s,%s" % (n, ref), "%s,%s" % (ref, n),
+                                                         "%s.%s" % (ref, n.lstrip("#")), "[%s].%s" % (ref, n.lstrip("#"))])))
+        lines.append(d.choice([" endstruct", " endstruct", " ends", ""]))
+        lines.append(" nop")
+        return dict(kind="stmt", cpu=cpu, lines=lines, opts=[])
     if kind == "stmt":
         cl = cpus()
         cpu = cl[d.int(0, len(cl) - 1)]
@@ -124,6 +142,24 @@ def strategy_(d, tier):
                         lines.append(d.choice([" nop", " lda #300", " xyzzy", " db 1/0", ""]))
                     if d.bool(0.8):
                         lines.append(" endexpect")
+                    continue
+                if d.bool(0.1):
+                    # a structure definition with plain elements and bit elements that refer to existing and to
+                    # missing elements (several CPU families resolve such references at ENDSTRUCT)
+                    sn = "st%d" % len(lines)
+                    lines.append("%s\t%s" % (sn, d.choice(["struct", "struct", "union"])))
+                    els = []
+                    for e in range(d.int(1, 4)):
+                        els.append("e%d" % e)
+                        lines.append("e%d\t%s" % (e, d.choice(["ds 1", "ds.b 1", "rmb 1", "res 1", "dfs 1", "db ?", "ds.w 1",
+                                                              "dc.b ?", "byte ?", "bss 1"])))
+                    for b in range(d.int(0, 3)):
+                        ref = d.choice(els + ["nosuch", "b0", sn])
+                        n = d.choice(["0", "7", "#7", "8", "15", "-1"])
+                        form = d.choice(["%s,%s" % (n, ref), "%s,%s" % (ref, n), "%s.%s" % (ref, n.lstrip("#")), ref])
+                        lines.append("b%d\tbit\t%s" % (b, form))
+                    if d.bool(0.85):
+                        lines.append(" endstruct")
                     continue
                 lines.append(d.choice(CONSTRUCT_LINES))
                 continue
